@@ -156,7 +156,10 @@ def find_sinks(repo, uni, fi):
             if n.attr in DUNDER_READS or (
                     n.attr.startswith('__') and n.attr.endswith('__') and
                     n.attr not in PROBE_NAMES and n.attr not in (
-                        '__name__', '__doc__', '__unwrapped__')):
+                        '__name__', '__doc__', '__unwrapped__',
+                        # plain strings naming where a class lives: no
+                        # capability travels through them
+                        '__module__', '__qualname__')):
                 base = env.ev(n.value)
                 if is_data(base.tags) or n.attr in DUNDER_READS and not (
                         isinstance(n.value, ast.Call) and isinstance(
@@ -299,6 +302,41 @@ def _returns_only_parameter_parts(h):
     return True
 
 
+def validating_helpers(repo, mod):
+    """Module-level helpers that validate for their callers:
+    H(obj, name, ...) calls _validate_name(<name param>, <the settings of
+    obj param>) on every path to a normal return.
+    -> {helper key: (index of the name parameter, index of the object
+    parameter)}"""
+    out = {}
+    for h in mod.functions.values():
+        if h.parent_func is not None or h.cls is not None or \
+                h.name == '_validate_name':
+            continue
+        ps = h.params()
+        g = cfgmod.CFG(h.node)
+        for c in model.calls_in(h.node, shallow=True):
+            d = repo.resolve(mod, c.func, model.scope_locals(h))
+            if d != YZ + '._validate_name' or len(c.args) < 2:
+                continue
+            a0 = c.args[0]
+            if not (isinstance(a0, ast.Name) and a0.id in ps):
+                continue
+            oi = None
+            for i, q in enumerate(ps):
+                if settings_of(repo, h, c.args[1], ast.Name(id=q,
+                                                            ctx=ast.Load())):
+                    oi = i
+            if oi is None:
+                continue
+            cn = g.node_of(c)
+            exits = [p for p, lab in g.exit.pred]
+            if cn is not None and exits and all(
+                    g.dominates(cn, e) for e in exits):
+                out[h.key] = (ps.index(a0.id), oi)
+    return out
+
+
 def check_validation(repo, rep, uni, fi, kind, sink):
     g = cfgmod.CFG(fi.node)
     if kind == 'getattr':
@@ -308,10 +346,19 @@ def check_validation(repo, rep, uni, fi, kind, sink):
     site = '%s/%s' % (fi.key, kind)
     sink_node = g.node_of(sink)
     vcalls = []
+    helpers = validating_helpers(repo, fi.module)
+    via_helper = {}
     for c in model.calls_in(fi.node, shallow=True):
         d = repo.resolve(fi.module, c.func, model.scope_locals(fi))
         if d == YZ + '._validate_name':
             vcalls.append(c)
+        else:
+            t = repo.lookup(d) if d else None
+            if isinstance(t, model.FuncInfo) and t.key in helpers:
+                ni, oi = helpers[t.key]
+                if ni < len(c.args) and oi < len(c.args):
+                    vcalls.append(c)
+                    via_helper[id(c)] = (c.args[ni], c.args[oi])
     if not vcalls:
         rep.ob('R07b', site, False,
                'host member access `%s` is not preceded by any '
@@ -334,6 +381,8 @@ def check_validation(repo, rep, uni, fi, kind, sink):
         if not v.args:
             continue
         a = v.args[0]
+        if id(v) in via_helper:
+            a = via_helper[id(v)][0]
         aleaves = leaves_of(fi, a, 0, g, vn)
         if any(k == 'remapped' for k, n in aleaves):
             why.append('validates the *remapped* name %s: the rules must '
@@ -345,7 +394,11 @@ def check_validation(repo, rep, uni, fi, kind, sink):
                        'from %s' % (model.norm(a), sorted(raw_names)))
             continue
         # settings of the same object
-        s_ok = len(v.args) > 1 and settings_of(repo, fi, v.args[1], obj)
+        if id(v) in via_helper:
+            s_ok = model.norm(via_helper[id(v)][1]) == model.norm(obj)
+        else:
+            s_ok = len(v.args) > 1 and settings_of(repo, fi, v.args[1],
+                                                   obj)
         if not s_ok:
             why.append('validated against settings that are not those of '
                        'the accessed object %s' % model.norm(obj))
@@ -707,6 +760,12 @@ def check_data_calls(repo, rep, uni):
             if _eval_signature(fi, call) or _dispatch_signature(call) or \
                     _expression_guard(repo, fi, call):
                 continue
+            if isinstance(f, ast.Name):
+                # delegate = context(name, engine, ...); delegate(...)
+                bound = norm.single_assignments(fi.node).get(f.id)
+                if isinstance(bound, ast.Call) and _dispatch_signature(
+                        bound):
+                    continue
             tags = env.ev(f).tags
             hit = [t for t in tags if t[0] in ('param', 'derived')]
             if not hit:
@@ -780,6 +839,63 @@ def check_data_calls(repo, rep, uni):
     rep.floor('calls of data values examined', n, 3)
 
 
+def check_yaqlize_keeps_existing_policy(repo, rep):
+    """R07h (second clause): yaqlize() installs settings only on an object
+    for which the access layer would find none -- the same lookup as
+    get_yaqlization_settings (attribute lookup, which sees the settings of
+    the object's class).  Auto-yaqlization calls yaqlize() on every result;
+    if that call can install fresh permissive settings on an instance whose
+    class carries a policy, the policy is gone for that instance."""
+    ym = repo.module('yaql.yaqlization')
+    n = 0
+    for fi in ym.functions.values():
+        for c in model.calls_in(fi.node, shallow=True):
+            if not (isinstance(c.func, ast.Name) and c.func.id == 'setattr'
+                    and len(c.args) == 3):
+                continue
+            lit = const_str(repo, fi, c.args[1])
+            if lit != '__yaqlization__':
+                continue
+            n += 1
+            target = model.norm(c.args[0])
+            ok = False
+            seen = []
+            for e, pol in norm.guards(c, fi.node):
+                e2 = norm.inline_simple_calls(repo, ym, e)
+                for at, p2 in norm.atoms(e2, pol):
+                    seen.append(('' if p2 else 'not ') + model.norm(at))
+                    # not hasattr(x, ATTR)
+                    if isinstance(at, ast.Call) and isinstance(
+                            at.func, ast.Name) and at.func.id == 'hasattr' \
+                            and len(at.args) == 2 and model.norm(
+                            at.args[0]) == target and const_str(
+                            repo, fi, at.args[1]) == '__yaqlization__' \
+                            and p2 is False:
+                        ok = True
+                    # getattr(x, ATTR, None) is None /
+                    # get_yaqlization_settings(x) is None
+                    if isinstance(at, ast.Compare) and len(at.ops) == 1 \
+                            and isinstance(at.ops[0], ast.Is) and \
+                            isinstance(at.comparators[0], ast.Constant) \
+                            and at.comparators[0].value is None and \
+                            p2 is True and isinstance(at.left, ast.Call):
+                        f = at.left
+                        nm = model.norm(f.func)
+                        if nm in ('getattr', 'get_yaqlization_settings') \
+                                and f.args and model.norm(
+                                f.args[0]) == target:
+                            ok = True
+            rep.ob('R07h', '%s/installs-only-when-unset' % fi.key, ok,
+                   'yaqlize() must leave an object alone when attribute '
+                   'lookup already finds yaqlization settings for it '
+                   '(`not hasattr(obj, \'__yaqlization__\')`): the guard '
+                   'here is %s, so auto-yaqlization can overwrite the '
+                   'policy an instance inherits from its class with fresh, '
+                   'permissive settings' % (seen or 'absent'),
+                   loc=ym.loc(c), construct=model.norm(c)[:100])
+    rep.floor('settings installation sites in yaqlization', n, 1)
+
+
 def check_yaqlization_grants(repo, rep, uni):
     """R07h: evaluation-time code grants yaqlization only to the very
     object a yaqlized member returned (auto_yaqlize_result), never to its
@@ -819,7 +935,7 @@ def check_side_doors(repo, rep):
     for call in model.calls_in(cf.node):
         for k in call.keywords:
             if k.arg is None:     # **expr
-                v = k.value
+                v = norm.subst_locals(cf.node, k.value, only_pure=False)
                 ok = isinstance(v, ast.Call) and repo.resolve(
                     sysm, v.func, model.scope_locals(cf)) == \
                     'yaql.language.utils.filter_parameters_dict'
@@ -983,6 +1099,7 @@ def run(repo, rep):
     check_yaqlized_type(repo, rep)
     check_data_calls(repo, rep, uni)
     check_yaqlization_grants(repo, rep, uni)
+    check_yaqlize_keeps_existing_policy(repo, rep)
     check_side_doors(repo, rep)
     rep.count(functions_scanned=nfun, sinks_found=nsinks,
               overloads=len(uni.reg.overloads))
